@@ -88,7 +88,7 @@ def fam_bounds(tier):
     envs.append(env)
     # skip nodes WITH a stack effect (used directly; the generator's skip never has one): a unit whose element fails must give back the
     # skip's pushes / drops as well as its position
-    for sname, sk in (('push', push(S(' '))), ('drop', seq('off', S(' '), 'drop'))):
+    for sname, sk in (('push', push(S(' '))), ('drop', ('pair', S(' '), 'drop'))):
         shapes = []
         for mn, mx in ((0, None), (1, None), (2, None), (0, 2), (1, 3), (2, 2)):
             shapes.append(('node', True, seq('off', rep('on', mn, mx, S('x')), opt('peekall'), opt(S('y')))))
@@ -281,7 +281,17 @@ def fam_misc(tier):
         ('node', True, choice('fail', 'empty')),
         ('node', True, seq('off', 'empty', 'fail')),
     ]
+    # what pest's optimizer rewrites INTO the skip-until node: (!(t1 | t2 ..) ~ ANY)*  -- same verdict and offset on every input form
+    def unskip(ts):
+        return star('off', seq('off', neg(choice(*[S(t) for t in ts]) if len(ts) > 1 else neg(S(ts[0]))), 'any'))
+    pairs = []
+    for i, sh in enumerate(list(leaves)):
+        e = sh[2]
+        if isinstance(e, tuple) and e[0] == 'skipuntil' and all(e[1]):
+            pairs.append((i, len(leaves)))
+            leaves.append(('node', True, unskip(e[1])))
     env2 = Env('mi_leaves', skip=None, rules=[], shapes=leaves)
+    env2.rewrite_pairs = pairs
     env2.alpha = [b'a', b'B', b'b', b'c', e_acute, '中'.encode(), '\U0001F600'.encode(), b'\r', b'\n', b'A']
     env2.maxlen = 3 if tier == 'quick' else 4
     env2.family = 'misc'
@@ -373,7 +383,13 @@ def fam_uni(tier):
         ('rec', 'inh', 'both', seq('inh', rule('field'), star('inh', seq('inh', S(','), rule('field'))), rule('recend')), False),
         ('recs', 'inh', 'both', seq('inh', plus('inh', rule('rec')), rule('EOI')), False),
     ]
-    env3 = Env('un_crlf', skip=None, rules=crlf_rules, shapes=[('rule', r[0]) for r in crlf_rules])
+    crlf_shapes = [('rule', r[0]) for r in crlf_rules]
+    crlf_shapes += [('node', True, ('skipuntil', [b'\r\n', b'\n'])),
+                    ('node', True, star('off', seq('off', neg(choice(S('\r\n'), S('\n'))), 'any'))),
+                    ('node', True, ('skipuntil', [b'a,', b'\r\n\r'])),
+                    ('node', True, star('off', seq('off', neg(choice(S('a,'), S('\r\n\r'))), 'any')))]
+    env3 = Env('un_crlf', skip=None, rules=crlf_rules, shapes=crlf_shapes)
+    env3.rewrite_pairs = [(len(crlf_rules), len(crlf_rules) + 1), (len(crlf_rules) + 2, len(crlf_rules) + 3)]
     env3.alpha = [b'a', b',', b'\r', b'\n']
     env3.maxlen = 4 if tier == 'quick' else 5
     env3.extra = [b'a,b\r\nc,d\r\n', b'abc\r\nxyz', b'a\r\n\r\nb', 'é,\r\n'.encode()]
